@@ -10,7 +10,7 @@ BaseCfg == [uvCap |-> "configured", upCap |-> TRUE, counterOn |-> TRUE, idLen |-
 NoPrfReq == [given |-> FALSE, eval |-> "absent", byCred |-> <<>>, byCredGiven |-> FALSE]
 BaseReq == [rp |-> "r1", user |-> "u1", algs |-> <<"ES256">>, exclude |-> <<>>, excludeGiven |-> FALSE,
             allow |-> <<>>, allowGiven |-> FALSE, rk |-> FALSE, up |-> TRUE, uv |-> FALSE, pinAuth |-> FALSE,
-            hs |-> "absent", prf |-> NoPrfReq, cdh |-> "h1"]
+            hs |-> "absent", prf |-> NoPrfReq, cdh |-> "h1", unkType |-> FALSE]
 UvOk(p, v) == [kind |-> "ok", pres |-> p, verif |-> v, err |-> 0]
 BaseEnv == [uv |-> UvOk(TRUE, TRUE), faults |-> <<0, 0, 0>>, cancelAt |-> -1]
 Cer(op, req) == [api |-> "ctap2", op |-> op, req |-> req, env |-> BaseEnv]
